@@ -258,7 +258,12 @@ func (sc *c13Scenario) main() {
 	rec := c13NewRec(nt, sc.victim, filepath.Join(sc.dir, "images"), run)
 	sc.rec = rec
 	_ = os.MkdirAll(rec.root, 0o750)
-	rec.install()
+	// VF_C13_NOREC=1 (debugging knob): run the scripted history without any crash-point recording, to tell
+	// behaviour of the system apart from perturbation by the recorder
+	norec := os.Getenv("VF_C13_NOREC") != ""
+	if !norec {
+		rec.install()
+	}
 	defer rec.uninstall()
 	if err := rec.watchDir(filepath.Join(sc.victim.folder, "multibeacon", "default", "groups")); err != nil {
 		run.Note("inotify watch failed: " + err.Error())
@@ -289,6 +294,10 @@ func (sc *c13Scenario) main() {
 	}()
 
 	fail := func(stage string, err error) {
+		rec.cmu.Lock()
+		run.Count("images_skipped_unstable", int64(rec.skipped))
+		rec.cmu.Unlock()
+		run.Count("scenario_failed_at:"+stage, 1)
 		run.Inconclusive(fmt.Sprintf("case %d: %s: %v\n%s", p.CaseIndex, stage, err, c13LogErrors(filepath.Join(sc.dir, "daemons.log"), 6)))
 	}
 	// ---- epoch 1
@@ -357,6 +366,12 @@ func (sc *c13Scenario) main() {
 		return
 	}
 	run.Count("rounds_reached", int64(tr3+3))
+	run.Count("scenario_completed", 1)
+	if norec {
+		close(stopPoll)
+		pollWG.Wait()
+		return
+	}
 	rec.image("final", true, "")
 	close(stopPoll)
 	pollWG.Wait()
